@@ -57,12 +57,39 @@ def impl():
     return CoordinateSystem, ScalarField, VectorField, gradient_operator, divergence_operator, curl_operator
 
 
-def make_cs(name):
+# user-supplied inner CoordSys3D: the operators are POSITIONAL (base_scalars()[0..2]), whatever the variables are called
+INNER_NAMES = {
+    "cart": (("y", "z", "x"), ("e1", "e2", "e3")),
+    "cyl": (("theta", "z", "r"), ("a", "b", "c")),
+    "sph": (("r", "phi", "theta"), ("e_r", "e_phi", "e_theta")),     # ISO-style names: 2nd = azimuth called phi
+}
+VARIANTS = ["default", "inner"]
+_INNER_COUNT = [0]
+
+
+def make_cs(name, variant="default"):
     CoordinateSystem = impl()[0]
     st = {"cart": CoordinateSystem.System.CARTESIAN, "cyl": CoordinateSystem.System.CYLINDRICAL,
         "sph": CoordinateSystem.System.SPHERICAL}[name]
-    cs = CoordinateSystem(st)
+    if variant == "inner":
+        from sympy.vector import CoordSys3D  # pylint: disable=import-outside-toplevel
+        _INNER_COUNT[0] += 1
+        var, vec = INNER_NAMES[name]
+        cs = CoordinateSystem(st, CoordSys3D(f"VPU{_INNER_COUNT[0]}", variable_names=var, vector_names=vec))
+    else:
+        cs = CoordinateSystem(st)
     return cs, list(cs.coord_system.base_scalars())
+
+
+class WrongSystem(Exception):
+    """an operator result is not tagged with the coordinate-system object of its operand"""
+
+
+def same_system(result, cs, what):
+    if result.coordinate_system is not cs:
+        raise WrongSystem(f"{what}: result.coordinate_system is {result.coordinate_system.coord_system_type.name} "
+            f"{result.coordinate_system.coord_system}, the operand's is {cs.coord_system_type.name} {cs.coord_system}")
+    return result
 
 
 def coords_of(p):
@@ -108,29 +135,54 @@ def vector_field(cs, fns, path="lambda"):
     raise ValueError(path)
 
 
-def run_grad(cs, fn, path="lambda"):
-    out = list(impl()[3](scalar_field(cs, fn, path)).components)
+def comps3(v):
+    out = list(v.components)
     return out + [sympy.S.Zero] * (3 - len(out))
+
+
+def run_grad(cs, fn, path="lambda"):
+    return comps3(same_system(impl()[3](scalar_field(cs, fn, path)), cs, "gradient_operator"))
 
 
 def run_div(cs, fns, path="lambda"):
     return impl()[4](vector_field(cs, fns, path))
 
 
+def curl_of(cs, field):
+    """curl_operator, with the result's system checked and the result field applied to the basis"""
+    c = same_system(impl()[5](field), cs, "curl_operator")
+    return c, comps3(same_system(c.apply_to_basis(), cs, "curl_operator(...).apply_to_basis()"))
+
+
 def run_curl(cs, fns, path="lambda"):
-    out = list(impl()[5](vector_field(cs, fns, path)).apply_to_basis().components)
-    return out + [sympy.S.Zero] * (3 - len(out))
+    return curl_of(cs, vector_field(cs, fns, path))[1]
 
 
 def run_curlgrad(cs, fn, path="lambda"):
     VectorField = impl()[2]
-    g = impl()[3](scalar_field(cs, fn, path))
-    out = list(impl()[5](VectorField.from_vector(g)).apply_to_basis().components)
-    return out + [sympy.S.Zero] * (3 - len(out))
+    g = same_system(impl()[3](scalar_field(cs, fn, path)), cs, "gradient_operator")
+    return curl_of(cs, VectorField.from_vector(g))[1]
 
 
 def run_divcurl(cs, fns, path="lambda"):
-    return impl()[4](impl()[5](vector_field(cs, fns, path)))
+    return impl()[4](curl_of(cs, vector_field(cs, fns, path))[0])
+
+
+# second-order compositions through the real code
+def run_curlcurl(cs, fns, path="lambda"):
+    return curl_of(cs, curl_of(cs, vector_field(cs, fns, path))[0])[1]
+
+
+def run_divgrad(cs, fn, path="lambda"):
+    VectorField = impl()[2]
+    g = same_system(impl()[3](scalar_field(cs, fn, path)), cs, "gradient_operator")
+    return impl()[4](VectorField.from_vector(g))
+
+
+def run_graddiv(cs, fns, path="lambda"):
+    ScalarField = impl()[1]
+    d = impl()[4](vector_field(cs, fns, path))
+    return comps3(same_system(impl()[3](ScalarField.from_expression(d, cs)), cs, "gradient_operator"))
 
 
 # ---------------------------------------------------------------------------------------------
@@ -169,6 +221,16 @@ def generic_lemmas(ctx):
     """Run the real operators on generic fields; one lemma per output component."""
     lemmas, outputs = [], {}
     for s in SYSTEMS:
+        try:
+            generic_lemmas_system(ctx, s, lemmas, outputs)
+        except WrongSystem as ex:
+            ctx.violation(f"C12:tie:result-system:{s}:first-order", f"operators in {s}: {ex}",
+                {"kind": "broken-tie", "theorem_or_tie": f"result system [{s}]", "observed": str(ex)}, found_input=False)
+    return lemmas, outputs
+
+
+def generic_lemmas_system(ctx, s, lemmas, outputs):
+    if True:
         cs, q = make_cs(s)
         ser = lambda: JetSer(q, {GEN[k]: k for k in range(4)})   # noqa: E731
         gen = [(lambda *a, k=k: GEN[k](*a)) for k in range(4)]
@@ -263,7 +325,48 @@ def generic_lemmas(ctx):
             tr = cs.transformation_to_system(CoordinateSystem.System.CARTESIAN)
             for k_, e in enumerate(tr):
                 add(f"corr_map_{s}_{k_}", e, f"ev rho (X_of {S} {k_})", f"transformation_to_system[{s}->cartesian] component {k_}", tr)
-    return lemmas, outputs
+        # second-order compositions through the real code, tied to the composed model formulas (all values)
+        dsph = "div_sph_code D" if s == "sph" else f"div {S} D"
+        try:
+            cc = run_curlcurl(cs, gen[1:4])
+            for i, e in enumerate(cc):
+                add(f"corr_curlcurl_{s}_{i}", e, f"ev rho (c3 {i} (curl {S} D (list3 (curl {S} D (gen_vector 3)))))",
+                    f"curl_operator(curl_operator F)[{s}] component {i}", cc)
+            dg = run_divgrad(cs, gen[0])
+            add(f"corr_divgrad_{s}", dg, f"ev rho ({dsph} (list3 (grad {S} D gen_scalar)))",
+                f"divergence_operator(gradient_operator f)[{s}]", [dg, sympy.tan(q[2])] if s == "sph" else [dg])
+            gd = run_graddiv(cs, gen[1:4])
+            for i, e in enumerate(gd):
+                add(f"corr_graddiv_{s}_{i}", e, f"ev rho (c3 {i} (grad {S} D ({dsph} (gen_vector 3))))",
+                    f"gradient_operator(divergence_operator F)[{s}] component {i}", gd + [sympy.tan(q[2])] * (s == "sph"))
+        except WrongSystem as ex:
+            ctx.violation(f"C12:tie:result-system:{s}", f"second-order composition in {s}: {ex}",
+                {"kind": "broken-tie", "theorem_or_tie": f"result system [{s}]", "observed": str(ex)}, found_input=False)
+        # the same operators on a system built around a user-supplied inner CoordSys3D with renamed / permuted variable
+        # and vector names: the operators are positional
+        cs, q = make_cs(s, "inner")
+        try:
+            g = run_grad(cs, gen[0])
+            for i, e in enumerate(g):
+                add(f"corr_grad_{s}_{i}_inner", e, f"ev rho (c3 {i} (grad {S} D gen_scalar))",
+                    f"gradient_operator[{s}, inner CoordSys3D {INNER_NAMES[s][0]}] component {i}", g)
+            d = run_div(cs, gen[1:4])
+            add(f"corr_div_{s}_3_inner", d, f"ev rho ({div_model(s, d)} (gen_vector 3))",
+                f"divergence_operator[{s}, inner CoordSys3D {INNER_NAMES[s][0]}]", [d])
+            c = run_curl(cs, gen[1:4])
+            for i, e in enumerate(c):
+                add(f"corr_curl_{s}_3_{i}_inner", e, f"ev rho (c3 {i} (curl {S} D (gen_vector 3)))",
+                    f"curl_operator[{s}, inner CoordSys3D {INNER_NAMES[s][0]}] component {i}", c)
+            cg = run_curlgrad(cs, gen[0])
+            for i, e in enumerate(cg):
+                add(f"corr_curlgrad_{s}_{i}_inner", e, f"ev rho (c3 {i} (curl {S} D (list3 (grad {S} D gen_scalar))))",
+                    f"curl_operator(gradient_operator f)[{s}, inner CoordSys3D] component {i}", cg)
+            dc = run_divcurl(cs, gen[1:4])
+            add(f"corr_divcurl_{s}_inner", dc, f"ev rho ({div_model(s, dc)} (list3 (curl {S} D (gen_vector 3))))",
+                f"divergence_operator(curl_operator F)[{s}, inner CoordSys3D]", [dc])
+        except WrongSystem as ex:
+            ctx.violation(f"C12:tie:result-system:{s}:inner", f"operators on an inner CoordSys3D in {s}: {ex}",
+                {"kind": "broken-tie", "theorem_or_tie": f"result system [{s}, inner]", "observed": str(ex)}, found_input=False)
 
 
 # ---------------------------------------------------------------------------------------------
@@ -404,12 +507,13 @@ def inverse_map(s):
     return [rr, sympy.atan2(Y, X), sympy.acos(Z / rr)]
 
 
-def spec_case(kind, s, fields, pts, path="lambda", sysobj=None):
+def spec_case(kind, s, fields, pts, path="lambda", sysobj=None, variant="default"):
     """Evaluate the specification on the real code.  Returns None when it holds at all points, otherwise a dict
     describing the first failing point.  `fields` are expressions (strings are sympified); `path` says how the
     ScalarField / VectorField object is constructed; `sysobj` = (CoordinateSystem, base scalars) to use an existing
     coordinate-system object (history stream) instead of a fresh one."""
-    cs, q = sysobj if sysobj is not None else make_cs(s)
+    cs, q = sysobj if sysobj is not None else make_cs(s, variant)
+    extra = []      # (observed, expected) pairs of already numeric values, appended to the comparison
     fields = [sympy.sympify(f, locals={"x": X, "y": Y, "z": Z, "q0": Q[0], "q1": Q[1], "q2": Q[2], "t": TT,
         "Piecewise": sympy.Piecewise, "sqrt": sympy.sqrt}) for f in fields]
     Xq = coord_map(s, q)
@@ -439,6 +543,29 @@ def spec_case(kind, s, fields, pts, path="lambda", sysobj=None):
     elif kind == "divcurl":     # fields = [F1,F2,F3](q)
         got = [run_divcurl(cs, [q_fn(f) for f in fields], path)]
         want = [0]
+    elif kind in ("curlcurl_local", "divgrad_local", "graddiv_local"):
+        # second-order compositions through the real code against the Cartesian composition of the re-expressed field
+        inv = inverse_map(s)
+        to_cart = lambda e: sympy.sympify(e).subs(dict(zip(Q, inv)), simultaneous=True)    # noqa: E731
+        ccurl = lambda H: [sympy.diff(H[2], Y) - sympy.diff(H[1], Z), sympy.diff(H[0], Z) - sympy.diff(H[2], X),   # noqa: E731
+            sympy.diff(H[1], X) - sympy.diff(H[0], Y)]
+        proj = lambda vec: [sum(E[i][k] * at_cart(vec[k], Xq) for k in range(3)) for i in range(3)]   # noqa: E731
+        if kind == "divgrad_local":
+            got = [run_divgrad(cs, q_fn(fields[0]), path)]
+            gc = to_cart(fields[0])
+            want = [at_cart(sum(sympy.diff(gc, v, 2) for v in (X, Y, Z)), Xq)]
+        else:
+            comps = list(fields) + [sympy.S.Zero] * (3 - len(fields))
+            Einv = local_basis(s, inv)
+            G = [sum(to_cart(comps[i]) * Einv[i][k] for i in range(3)) for k in range(3)]
+            fns = [q_fn(f) for f in fields]
+            if kind == "curlcurl_local":
+                got = run_curlcurl(cs, fns, path)
+                want = proj(ccurl(ccurl(G)))
+            else:
+                got = run_graddiv(cs, fns, path)
+                dv = sympy.diff(G[0], X) + sympy.diff(G[1], Y) + sympy.diff(G[2], Z)
+                want = proj([sympy.diff(dv, v) for v in (X, Y, Z)])
     elif kind in ("grad_local", "div_local", "curl_local"):
         # fields are given in the system's OWN coordinates (scalar f(q) / local-basis components F_i(q), possibly
         # constants).  Truth: re-express as a field of the Cartesian point through the inverse coordinate map, apply the
@@ -459,11 +586,16 @@ def spec_case(kind, s, fields, pts, path="lambda", sysobj=None):
                 got = [run_div(cs, fns, path)]
                 want = [at_cart(sympy.diff(G[0], X) + sympy.diff(G[1], Y) + sympy.diff(G[2], Z), Xq)]
             else:
-                got = run_curl(cs, fns, path)
+                cfield, got = curl_of(cs, vector_field(cs, fns, path))
                 cc = [sympy.diff(G[2], Y) - sympy.diff(G[1], Z), sympy.diff(G[0], Z) - sympy.diff(G[2], X),
                     sympy.diff(G[1], X) - sympy.diff(G[0], Y)]
                 cc = [at_cart(c_, Xq) for c_ in cc]
                 want = [sum(E[i][k] * cc[k] for k in range(3)) for i in range(3)]
+                # the returned FIELD evaluated at a point (apply) = its basis expression at that point
+                for pt in pts:
+                    pt_ = [sympy.sympify(c) for c in pt]
+                    at_pt = comps3(cfield.apply(pt_))
+                    extra += [(num(a, q, pt_), num(b, q, pt_)) for a, b in zip(at_pt, got)]
     elif kind.startswith("pad_"):   # fields = n components (q); short field vs explicitly padded field
         op = kind[4:]
         fns = [q_fn(f) for f in fields]
@@ -482,6 +614,10 @@ def spec_case(kind, s, fields, pts, path="lambda", sysobj=None):
         if foreign:
             return {"component": i, "point": None, "observed": str(a), "expected": f"an expression in {q}",
                 "foreign_base_scalars": [str(b) for b in foreign], "observed_expr": str(a)}
+    for i, (va, vb) in enumerate(extra):
+        if not close(va, vb):
+            return {"component": i % 3, "point": "result field applied to the point", "observed": str(va), "expected": str(vb),
+                "observed_expr": "curl_operator(F).apply(point)"}
     for pt in pts:
         pt = [sympy.sympify(c) for c in pt]
         for i, (a, b) in enumerate(zip(got, want)):
@@ -492,10 +628,45 @@ def spec_case(kind, s, fields, pts, path="lambda", sysobj=None):
     return None
 
 
+CURATED_SCALAR = {"cart": "q0**2*q1 + q1*q2**2 + q0*q2", "cyl": "q0**2*sin(q1) + q0*q2*cos(q1) + q1*q2",
+    "sph": "q0**2*sin(q2)*cos(q1) + q0*q1 + q0*cos(q2)"}
+CURATED_VECTOR = {"cart": ["q0*q1 + q2**2", "q1*q2 - q0**2", "q0*q2 + q1"],
+    "cyl": ["q0**2*cos(q1) + q2", "q0*q2*sin(q1)", "q0*q2 + cos(q1)"],
+    "sph": ["q0**2*sin(q2)", "q0*cos(q1)*sin(q2) + q0**2", "q0*cos(q2) + q0*sin(q1)"]}
+CURATED_VECTOR2 = dict(CURATED_VECTOR, sph=["q0**2*sin(q2)", "q0*cos(q1)", "q0**2"])     # second-order kinds (cheaper truth)
+CURATED_POINTS = {"cart": [["7/5", "-6/5", "-1/2"]], "cyl": [["13/10", "-4/5", "-3/2"]], "sph": [["17/10", "-9/10", "11/10"]]}
+
+
+def curated_cases(only=None):
+    """Deterministic cases run first on every tier: every first- and second-order kind in every system, the first-order
+    ones also on a system built around a user-supplied inner CoordSys3D with renamed / permuted variable names."""
+    out = []
+    for s in SYSTEMS:
+        for kind, variant in [("grad_local", "inner"), ("div_local", "inner"), ("curl_local", "inner"), ("curlgrad", "inner"),
+                ("divcurl", "inner"), ("curl_local", "default"), ("curlcurl_local", "default"), ("divgrad_local", "default"),
+                ("graddiv_local", "default")]:
+            if only is not None and (kind, s) not in only:
+                continue
+            scalar = kind in ("grad_local", "curlgrad", "divgrad_local")
+            out.append({"kind": kind, "sys": s, "variant": variant, "path": "lambda", "flavour": "curated",
+                "fields": [CURATED_SCALAR[s]] if scalar else (CURATED_VECTOR2 if kind.endswith("_local") and kind[:2] in ("cu", "gr")
+                    and kind != "curl_local" else CURATED_VECTOR)[s], "points": CURATED_POINTS[s]})
+    return out
+
+
 def spec_stream(ctx, n_per, only=None):
     """Seeded concrete fields through the real operators, against the specification."""
     rng = ctx.rng
-    cases = []
+    cases = curated_cases(only)
+    for s in SYSTEMS:      # seeded second-order cases (thorough only: the inverse-map truth is expensive)
+        for kind in ("curlcurl_local", "divgrad_local", "graddiv_local"):
+            if ctx.quick or (only is not None and (kind, s) not in only):
+                continue
+            for j in range(max(1, n_per // 10)):
+                nf = 1 if kind == "divgrad_local" else 3
+                cases.append({"kind": kind, "sys": s, "variant": VARIANTS[j % 2], "path": (SPATHS if nf == 1 else VPATHS)[j % 3],
+                    "fields": [str(rand_curv_field(rng, s)) for _ in range(nf)],
+                    "points": [[str(c) for c in signed_point(rng, s, False)]]})
     for s in SYSTEMS:
         for kind in ("grad", "div", "curl", "curlgrad", "divcurl", "pad_div", "pad_curl", "grad_local", "div_local", "curl_local"):
             if only is not None and (kind, s) not in only:
@@ -524,7 +695,8 @@ def spec_stream(ctx, n_per, only=None):
                 pts = [rand_point(rng, s) for _ in range(2)]
                 if s == "sph" and j % 2 == 0:
                     pts.append(rand_point(rng, s, special=True))      # the plane phi = pi/2
-                cases.append({"kind": kind, "sys": s, "path": path, "fields": [str(f) for f in fields],
+                cases.append({"kind": kind, "sys": s, "path": path, "variant": VARIANTS[1 if j % 3 == 2 else 0],
+                    "fields": [str(f) for f in fields],
                     "points": [[str(c) for c in p] for p in pts]})
     # non-smooth fields (even roots / inequalities of a coordinate) at points whose signed coordinates are negative
     n_ns = max(2, n_per // 3)
@@ -543,7 +715,8 @@ def spec_stream(ctx, n_per, only=None):
     bad = []
     for c in cases:
         try:
-            r = spec_case(c["kind"], c["sys"], c["fields"], c["points"], c.get("path", "lambda"))
+            r = spec_case(c["kind"], c["sys"], c["fields"], c["points"], c.get("path", "lambda"),
+                variant=c.get("variant", "default"))
         except Exception as e:  # pylint: disable=broad-except
             r = {"exception": f"{type(e).__name__}: {e}"}
         if r is not None:
@@ -585,6 +758,52 @@ def history_stream(ctx):
     return cases, bad
 
 
+def object_history_case(s, vpath, spath, variant="default"):
+    """ONE field object, used several times and in different orders (operators, apply_to_basis, apply at a point):
+    every result must equal the result of the same call on a FRESH object built the same way (whose agreement with the
+    model is the business of the other streams).  Returns None or a dict describing the first differing step."""
+    cs, q = make_cs(s, variant)
+    pt = [sympy.sympify(c) for c in CURATED_POINTS[s][0]]
+    vf = [q_fn(sympy.sympify(f, locals={"q0": Q[0], "q1": Q[1], "q2": Q[2]})) for f in CURATED_VECTOR[s]]
+    sf = q_fn(sympy.sympify(CURATED_SCALAR[s], locals={"q0": Q[0], "q1": Q[1], "q2": Q[2]}))
+    ops = {
+        "div": lambda F: [impl()[4](F)],
+        "curl": lambda F: curl_of(cs, F)[1],
+        "basis": lambda F: comps3(F.apply_to_basis()),
+        "apply": lambda F: comps3(F.apply(pt)),
+        "grad": lambda F: comps3(same_system(impl()[3](F), cs, "gradient_operator")),
+        "sbasis": lambda F: [F.apply_to_basis()],
+        "sapply": lambda F: [F.apply(pt)],
+    }
+    for label, mk, seq in (("VectorField built by " + vpath, lambda: vector_field(cs, vf, vpath),
+            ["div", "curl", "div", "basis", "curl", "apply", "basis", "div"]),
+            ("ScalarField built by " + spath, lambda: scalar_field(cs, sf, spath), ["grad", "sbasis", "grad", "sapply", "grad"])):
+        obj = mk()
+        for step, op in enumerate(seq):
+            got, want = ops[op](obj), ops[op](mk())
+            if len(got) != len(want) or not all(close(num(a, q, pt), num(b, q, pt)) for a, b in zip(got, want)):
+                return {"object": label, "sequence": seq[:step + 1], "failing_step": f"{step}: {op}",
+                    "observed": [str(a) for a in got], "expected_fresh_object": [str(b) for b in want], "point": [str(c) for c in pt]}
+    return None
+
+
+def object_history_stream(ctx):
+    cases, bad = [], []
+    for s in SYSTEMS:
+        for k, vpath in enumerate(VPATHS):
+            c = {"kind": "object_history", "sys": s, "path": vpath, "spath": SPATHS[k % len(SPATHS)],
+                "variant": VARIANTS[k % 2], "flavour": "objhistory", "fields": CURATED_VECTOR[s] + [CURATED_SCALAR[s]],
+                "points": CURATED_POINTS[s]}
+            cases.append(c)
+            try:
+                r = object_history_case(s, vpath, c["spath"], c["variant"])
+            except Exception as e:  # pylint: disable=broad-except
+                r = {"exception": f"{type(e).__name__}: {e}"}
+            if r is not None:
+                bad.append((c, r))
+    return cases, bad
+
+
 def replay_history(c):
     s = c["sys"]
     systems = [make_cs(s) for _ in range(3)]
@@ -597,13 +816,21 @@ def replay_history(c):
 
 
 OP_OF_KIND = {"grad": "grad", "div": "div", "curl": "curl", "curlgrad": "curlgrad", "divcurl": "divcurl",
-    "pad_div": "div", "pad_curl": "curl", "grad_local": "grad", "div_local": "div", "curl_local": "curl"}
+    "pad_div": "div", "pad_curl": "curl", "grad_local": "grad", "div_local": "div", "curl_local": "curl",
+    "curlcurl_local": "curlcurl", "divgrad_local": "divgrad", "graddiv_local": "graddiv"}
 
 
 def report_spec(ctx, c, r):
     key = f"C12:{'history' if c.get('flavour') == 'history' else 'spec'}:{c['kind']}:{c['sys']}"
+    if c.get("flavour") == "objhistory":
+        ctx.violation(f"C12:objhistory:{c['sys']}:{c['path']}", f"re-using one field object in {c['sys']} coordinates "
+            f"({c['path']} / {c['spath']}, fields {c['fields']}) changes the results: {r}",
+            {"kind": "spec", "item": f"object history [{c['sys']}]", "input": c, "observed": r,
+                "expected": "every use of the same field object gives what a fresh object gives",
+                "theorem_or_tie": "field objects are immutable under operators / apply / apply_to_basis"}, found_input=True)
+        return
     what = (f"{c['kind']} in {c['sys']} coordinates contradicts the property on the field {c['fields']} (field object built by "
-        f"{c.get('path', 'lambda')}) at "
+        f"{c.get('path', 'lambda')}, {c.get('variant', 'default')} coordinate-system object) at "
         f"{r.get('point')}: component {r.get('component')} is {r.get('observed')}, expected {r.get('expected')}"
         if "exception" not in r else f"{c['kind']} in {c['sys']} coordinates raised {r['exception']} on {c['fields']}")
     ctx.violation(key, what, {"kind": "spec", "item": f"{c['kind']}[{c['sys']}]", "input": c, "observed": r,
@@ -629,9 +856,14 @@ def concrete_lemmas(ctx, n_per):
             except sx.Unsupported:
                 continue
             n = j % 3 + 1 if j % 4 else 3
-            g = run_grad(cs, q_fn(bodies[0]), spath)
-            d = run_div(cs, [q_fn(b) for b in bodies[1:1 + n]], vpath)
-            c = run_curl(cs, [q_fn(b) for b in bodies[1:1 + n]], vpath)
+            try:
+                g = run_grad(cs, q_fn(bodies[0]), spath)
+                d = run_div(cs, [q_fn(b) for b in bodies[1:1 + n]], vpath)
+                c = run_curl(cs, [q_fn(b) for b in bodies[1:1 + n]], vpath)
+            except WrongSystem as ex:
+                ctx.violation(f"C12:tie:result-system:{s}:concrete", f"operators on concrete fields in {s}: {ex}",
+                    {"kind": "broken-tie", "theorem_or_tie": f"result system [{s}]", "observed": str(ex)}, found_input=False)
+                continue
             vec = "[" + "; ".join(lits[1:1 + n]) + "]"
             js = lambda: JetSer(q, {})    # noqa: E731
             model_div = div_model(s, d)
@@ -706,6 +938,12 @@ def run(ctx):
     ctx.evaluated(4 * len(hcases), len(hcases))
     ctx.coverage["history_cases"] = len(hcases)
     ctx.coverage["history_failures"] = len(hbad)
+    ocases, obad = object_history_stream(ctx)
+    for c, r in obad:
+        report_spec(ctx, c, r)
+    ctx.evaluated(13 * len(ocases), len(ocases))
+    ctx.coverage["object_history_cases"] = len(ocases)
+    ctx.coverage["object_history_failures"] = len(obad)
     ctx.coverage["spec_cases"] = len(cases)
     ctx.coverage["spec_failures"] = len(bad)
     ctx.log(f"spec stream: {len(cases)} cases, {len(bad)} failing")
@@ -735,7 +973,8 @@ def run(ctx):
         op, s = parse_lemma(lm.name)
         kinds = {"grad": ["grad", "grad_local"], "div": ["div", "div_local", "pad_div"], "curl": ["curl", "curl_local", "pad_curl"],
             "curlgrad": ["curlgrad", "grad", "curl"], "divcurl": ["divcurl", "div", "curl"],
-            "map": ["grad"]}.get(op, ["grad", "div", "curl", "grad_local", "div_local", "curl_local"])
+            "curlcurl": ["curlcurl_local", "curl_local"], "divgrad": ["divgrad_local", "grad_local", "div_local"],
+            "graddiv": ["graddiv_local", "grad_local", "div_local"], "map": ["grad"]}.get(op, ["grad", "div", "curl", "grad_local", "div_local", "curl_local"])
         if any((OP_OF_KIND[k], s) in spec_bad_keys for k in kinds):
             continue    # a concrete failing input for this operator/system is already reported
         need_search.setdefault((tuple(kinds), s), []).append((lm, err))
@@ -759,6 +998,12 @@ def run(ctx):
 
 
 def replay(ctx, rep):
+    if rep.get("kind") == "spec" and rep["input"].get("flavour") == "objhistory":
+        c = rep["input"]
+        r = object_history_case(c["sys"], c["path"], c["spath"], c.get("variant", "default"))
+        print(f"replay object history [{c['sys']}] {c['path']} / {c['spath']} fields={c['fields']}")
+        print("every re-use agrees with a fresh object now" if r is None else f"still failing: {r}")
+        return 0 if r is None else 1
     if rep.get("kind") == "spec" and rep["input"].get("flavour") == "history":
         c = rep["input"]
         r = replay_history(c)
@@ -767,8 +1012,8 @@ def replay(ctx, rep):
         return 0 if r is None else 1
     if rep.get("kind") == "spec":
         c = rep["input"]
-        r = spec_case(c["kind"], c["sys"], c["fields"], c["points"], c.get("path", "lambda"))
-        print(f"replay {c['kind']}[{c['sys']}] built by {c.get('path', 'lambda')} fields={c['fields']} points={c['points']}")
+        r = spec_case(c["kind"], c["sys"], c["fields"], c["points"], c.get("path", "lambda"), variant=c.get("variant", "default"))
+        print(f"replay {c['kind']}[{c['sys']}, {c.get('variant', 'default')} system] built by {c.get('path', 'lambda')} fields={c['fields']} points={c['points']}")
         if r is None:
             print("specification holds now")
             return 0
